@@ -24,8 +24,11 @@ META = dict(
     level_note=("Bounds: quick n<=6/4/3/2 (1-4-D), thorough n<=8/5/4/2; cell sizes 1-3 quarter-units anisotropic; probes on the "
                 "quarter-cell lattice (R) and arbitrary integer lattice points on meshes up to 40 cells/axis (T). Trusted: TLC, "
                 "harness/tlaval.py parser, embedding/projection adapter (exact Fractions), IEEE exactness on dyadic data. "
-                "Length scales 1e-12..1e6 are covered through the embeddings, not through the model."),
-    technique="TLA+ lattice model (Lattice.tla, C01.tla) + TLC exhaustive; spec states replayed into code; code traces validated by TLC (C01Trace.tla)",
+                "Length scales 1e-12..1e6 are covered through the embeddings, not through the model. Beyond the bounds: spec/C01Core.tla - "
+                "Apalache proves the inverse-map, own-cell, tile-once and outside clauses for the 1-d integer lattice with unbounded "
+                "corner, cell size and cell count (5 obligations, about 4 s each; reported in the evidence, a counterexample would be "
+                "a violation of the specification itself)."),
+    technique="TLA+ lattice model (Lattice.tla, C01.tla) + TLC exhaustive; spec states replayed into code; code traces validated by TLC (C01Trace.tla); Apalache on the unbounded 1-d core (C01Core.tla)",
     design_ref="DESIGN.md section 7 C01",
 )
 
@@ -329,6 +332,9 @@ def run_traces(ctx, df, ntraces, embs):
 def run(ctx):
     df = core.import_library()
     embs = _ctx_embs(ctx.tier, ctx.seed)
+    # the unbounded integer core (spec/C01Core.tla): Apalache discharges the clauses about the index <-> point maps
+    from .. import apalache
+    apalache.run_stage(ctx, module="C01Core.tla", obligations=apalache.C01_OBLIGATIONS, claim=apalache.C01_CLAIM)
     r = ctx.model("MC_C01", f"C01_{ctx.tier}.cfg", dump=True)
     if r.ok:
         states = ctx.dump_states(r)
